@@ -118,6 +118,11 @@ def direct_oracle(ctx, cfg, data, kind, results):
             if fw != fo:
                 ctx.violation(f"C03/delivered-differs/{'resp' if cfg.response else 'req'}", case, "accepted under both segmentations but delivered events differ")
         else:
+            # both rejected (or one still incomplete): the exception class may differ — a stream with
+            # two defects (e.g. a bare LF in a trailer AND too many trailers) reports whichever the
+            # segmentation lets the parser see first — so payload-exception events compare as "X"
+            fw = [("X",) if t[0] == "X" else t for t in fw]
+            fo = [("X",) if t[0] == "X" else t for t in fo]
             n = min(len(fw), len(fo))
             if fw[:n] != fo[:n]:
                 ctx.violation(f"C03/delivered-not-prefix/{'resp' if cfg.response else 'req'}", case, "delivered events are not prefix-comparable")
